@@ -431,6 +431,23 @@ func discharge(obls []*Obligation, dir string, timeout int) []*NamedResult {
 	sem := make(chan struct{}, 6)
 	qcount := make(map[*Obligation]int)
 	var mu sync.Mutex
+	// once a named obligation has a counterexample (or is undecided on two paths) its remaining paths are not
+	// solved: the violation is established and the other paths could only repeat it
+	settled := map[string]int{}
+	isSettled := func(name string) bool {
+		mu.Lock()
+		defer mu.Unlock()
+		return settled[name] >= 2
+	}
+	note := func(name, status string) {
+		mu.Lock()
+		defer mu.Unlock()
+		if status == "sat" {
+			settled[name] += 2
+		} else if status != "unsat" {
+			settled[name]++
+		}
+	}
 	for gi, key := range order {
 		g := groups[key]
 		wg.Add(1)
@@ -478,6 +495,10 @@ func discharge(obls []*Obligation, dir string, timeout int) []*NamedResult {
 				}
 			}
 			for oi, o := range todo {
+				if isSettled(o.Name()) {
+					o.Res = &SolverResult{Status: "skipped", Output: "not solved: the obligation already failed on another path"}
+					continue
+				}
 				solveOne := func(o *Obligation, tag string) *SolverResult {
 					mu.Lock()
 					qcount[o]++
@@ -521,6 +542,7 @@ func discharge(obls []*Obligation, dir string, timeout int) []*NamedResult {
 						}
 					}
 				}
+				note(o.Name(), o.Res.Status)
 			}
 		}(gi, g)
 	}
@@ -541,6 +563,9 @@ func discharge(obls []*Obligation, dir string, timeout int) []*NamedResult {
 			o.Res = &SolverResult{Status: "error", Output: "not solved"}
 		}
 		r.Time += o.Res.Time
+		if o.Res.Status == "skipped" {
+			continue
+		}
 		if o.Res.Status == "unsat" {
 			r.Solver[o.Res.Solver]++
 			continue
